@@ -57,7 +57,7 @@ def cases(draw):
     pts = [pts[k] for k in order]
     shape = draw(st.sampled_from(blocks.shape_options(len(pts))))
     return dict(layout=lay, points=pts, shape=shape, order=draw(st.sampled_from(build.ORDERS)), order2=draw(st.sampled_from(build.ORDERS)), container=draw(st.sampled_from(build.CONTAINERS)), kinds=sorted(set(kinds)),
-                extra=draw(st.booleans()))
+                extra=draw(st.booleans()), table=draw(st.sampled_from(build.TABLES)))
 
 
 def check(case, ctx):
@@ -67,6 +67,7 @@ def check(case, ctx):
     e = lay_([p[0] for p in xy], case["shape"])
     n = lay_([p[1] for p in xy], case["shape"])
     e, n = blocks.pixel_array(lay, e), blocks.pixel_array(lay, n)
+    e, n = build.table_views(e, n, case.get("table"))
     coords = (e, n) + ((np.arange(e.size, dtype="float64").reshape(e.shape),) if case["extra"] else ())
     kw = blocks.verde_kwargs(lay)
     block_coords, labels = vd.block_split(tuple(build.present(c, case.get("container")) for c in coords), **kw)
